@@ -653,6 +653,7 @@ func doHist(id, rule string, ops *sexp) string {
 		return id + " out=NEWERR"
 	}
 	var outs []string
+	var lastObj map[string]interface{}
 	for _, op := range ops.list {
 		if !op.isL {
 			switch op.atom {
@@ -671,6 +672,17 @@ func doHist(id, rule string, ops *sexp) string {
 			return id + " BADCASE"
 		}
 		obj := ov.(map[string]interface{})
+		if op.list[0].atom == "q" && lastObj != nil {
+			// same map value as the previous call, mutated in place to the new content
+			for k := range lastObj {
+				delete(lastObj, k)
+			}
+			for k, val := range obj {
+				lastObj[k] = val
+			}
+			obj = lastObj
+		}
+		lastObj = obj
 		var v bool
 		var perr error
 		func() {
